@@ -201,6 +201,12 @@ def units(tier):
     wrap("C14.Rxn_copies", unit_copies)
     wrap("C14.Rxn_mix", unit_mix)
     wrap("C14.delete_entities", unit_delete_entities)
+    from props import c14_use as CU
+    from props.common import wrap as _wrap
+    _wrap(us, "C14.copy_use.save_range_is_exactly_the_scratch_number", CU.unit_copy_use)
+    _wrap(us, "C14.saver.writes_exactly_the_save_range", CU.unit_saver)
+    from props import c14_components as CC
+    _wrap(us, "C14.list_components.every_defined_reactant_contributes", CC.unit_list_components)
     return us
 
 
